@@ -253,6 +253,16 @@ def main():
         nc, na = DEF[rv]
         items.append(("tm_right", lv, rv, False, 1, lo_r, "", nc, na, True, model_for(lo_r)))
         items.append(("tm_right", lv, rv, False, 2, lo_r, "", nc, na, True, model_for(lo_r)))
+    # first-order singles in the ground state: coupling blocks and doubles transition moments at
+    # first order (the lower-class projection of the doubles precursor is then non-zero)
+    if quick:
+        for v in variants:
+            lo, hi = SP2[v]
+            nc, na = DEF[v]
+            items.append(("expec", v, v, True, 1, lo, hi, 1, 1, True, model_for(lo, hi)))
+            items.append(("expec", v, v, True, 1, hi, lo, 1, 1, True, model_for(lo, hi)))
+            items.append(("tm_left", v, v, True, 1, hi, "", nc, na, True, model_for(hi)))
+            items.append(("expec", v, v, True, 2, lo, lo, 1, 1, True, model_for(lo)))
     # summing functions: (kind, left, right, singles, order, -, adc_order, n_c, n_a, subtract_gs, model)
     for v in variants:
         nc, na = DEF[v]
